@@ -64,6 +64,8 @@ def repo_suite(rng, case, idx):
     import pytest
     from pv.monitors import M
     repo = os.environ.get('VERIF_REPO', '/repo')
+    from pv import refmodel as _R
+    _R.FOLLOW_LIVE_PRECISIONS = True
     cwd = os.getcwd()
     os.chdir(repo)
     prev = M.enabled
